@@ -199,6 +199,9 @@ structure St (α D : Type) where
   noProgress : Nat
   cbs : List (Callback α)
   fuelOut : Bool := false
+  /-- `have_ŷx̂` of the loop head just passed: `ŷx̂` of the current iterate holds `ŷ(x̂)` (always with
+      lazy evaluation; with `eager_gradient_eval` only if the head evaluated it) -/
+  yhatValid : Bool := false
 
 /-- Line-search working state. -/
 structure LS (α D : Type) where
@@ -315,9 +318,9 @@ def exitBlock (P : Problem α) (pr : Params α) (s : St α D) (eps : α) (status
     { k := s.k, status := status, it := s.curr, fbe := s.curr.fbe, q := [], tau := -1, eps := eps }
   let write := status == .Converged || status == .Interrupted || pr.alwaysOverwrite
   -- the progress callback counts as one event
-  -- `curr->ψx̂ = problem.eval_ψ(curr->x̂, y, Σ, curr->ŷx̂)` when eager (eval_ψ_grad_ψ only used ŷx̂
-  -- as workspace)
-  let (c, tick) := if write && pr.eagerGradientEval then
+  -- `if (!have_ŷx̂) curr->ψx̂ = problem.eval_ψ(curr->x̂, y, Σ, curr->ŷx̂)` (with eager evaluation
+  -- eval_ψ_grad_ψ only used ŷx̂ as workspace, unless the head already evaluated ŷ)
+  let (c, tick) := if write && !s.yhatValid then
       (let r := P.psi s.curr.xhat; { s.curr with psixhat := r.1, yhat := r.2 }, s.tick + 2)
     else (s.curr, s.tick + 1)
   let errz := if write then (if errz0.length > 0 then vdiv (vsub c.yhat y) Sig else errz0) else errz0
@@ -329,13 +332,31 @@ def exitBlock (P : Problem α) (pr : Params α) (s : St α D) (eps : α) (status
     wrote := write, callbacks := (cb :: s.cbs).reverse, ticks := tick, final := some c,
     fuelOut := s.fuelOut }
 
-/-- Top of the loop: `∇ψ(x̂ₖ)` if the criterion needs it, `εₖ`, the stop status. -/
+/-- `ŷ(x̂)` is read at this head: by the Ipopt criterion, or by `eval_grad_L` when `∇ψ(x̂)` has to be
+    recomputed. -/
+def headReadsYhat (pr : Params α) (c : Iterate α) : Bool :=
+  pr.stopCrit == .Ipopt || (requiresGradHat pr.stopCrit && !c.haveGradHat)
+
+/-- `have_ŷx̂` after the head's ŷ evaluation. -/
+def headYhatValid (pr : Params α) (c : Iterate α) : Bool :=
+  !pr.eagerGradientEval || headReadsYhat pr c
+
+/-- `(void)problem.eval_ψ(curr->x̂, y, Σ, curr->ŷx̂)` at the loop head: with eager evaluation `ŷx̂` has only
+    been the workspace of `eval_ψ_grad_ψ`; it is evaluated where it is read (`ψ(x̂)` is known already and
+    is not overwritten).  Returns the iterate and the number of calls made (0 or 1). -/
+def headEvalYhat (P : Problem α) (pr : Params α) (c : Iterate α) : Iterate α × Nat :=
+  if pr.eagerGradientEval && headReadsYhat pr c then ({ c with yhat := (P.psi c.xhat).2 }, 1) else (c, 0)
+
+/-- Top of the loop: `ŷ(x̂ₖ)` (eager evaluation) and `∇ψ(x̂ₖ)` if the criterion needs them, `εₖ`, the stop
+    status. -/
 def headStep (P : Problem α) (pr : Params α) (stop : Nat → Bool) (oot : Bool) (s : St α D) :
     St α D × α × SolverStatus :=
-  let ct := if requiresGradHat pr.stopCrit && !s.curr.haveGradHat
-    then (evalGradPsiHat P s.curr, s.tick + 1) else (s.curr, s.tick)
+  let cy := headEvalYhat P pr s.curr
+  let ct := if requiresGradHat pr.stopCrit && !cy.1.haveGradHat
+    then (evalGradPsiHat P cy.1, s.tick + cy.2 + 1) else (cy.1, s.tick + cy.2)
   let eps := epsOf P pr ct.1
-  let s' : St α D := { s with curr := ct.1, tick := ct.2 + epsTicks pr.stopCrit }
+  let s' : St α D := { s with curr := ct.1, tick := ct.2 + epsTicks pr.stopCrit,
+                              yhatValid := headYhatValid pr s.curr }
   (s', eps, statusOf pr s'.k eps s'.noProgress oot (stop s'.tick))
 
 /-- Direction stage: `initialize` at k = 0, `apply`, validity check.
